@@ -16,7 +16,7 @@ from ..geom import de_casteljau_half, sq_dist_point_segment
 PROPERTY = "C10"
 LATTICE = [(x, y) for x in range(3) for y in range(3)]
 SUB = [(0, 0), (2, 0), (1, 1), (0, 2), (2, 2)]
-SPLIT_BUDGET = 4096
+SPLIT_BUDGET = 600         # explored inputs need < 100 splits (max is reported in the evidence)
 OUT_A, OUT_B = (-7, 5), (9, -4)         # outer handles of the first / last node
 
 
@@ -106,12 +106,12 @@ def run_subdivide(nodes, flat):
 
     plot_utils.bezmisc = types.SimpleNamespace(beziersplitatt=split_hook)
     try:
-        with core.watchdog(10.0):
+        with core.watchdog(5.0):
             ret = plot_utils.subdivideCubicPath(s_p, flat)
     except LoopBudget:
         return [("loop", f"{desc} made more than {SPLIT_BUDGET} splits")], len(states)
     except core.CaseTimeout:
-        return [("loop", f"{desc} did not return within 10 s")], len(states)
+        return [("loop", f"{desc} did not return within 5 s")], len(states)
     except Exception as exc:                # pylint: disable=broad-except
         return [("raise", f"{desc} raised {type(exc).__name__}: {exc}")], len(states)
     finally:
